@@ -110,12 +110,14 @@ class Runner:
         beats = secs if cn in ('sys', 'app') else clock.beats
         self.ev.append(E('obs', r=name, n=n, secs=exact(secs, 'secs'), beats=exact(beats, 'beats')))
 
-    def play(self, name, cname):
+    def play(self, name, cname, q=0, ph=0):
+        from sc3.base.clock import Quant
         r = self.routine(name)
+        quant = Quant(q // TU if q % TU == 0 else q / TU, ph / TU) if (q or ph) else 0
         if cname == '':
-            r.play(None, 0)
+            r.play(None, quant)
         else:
-            r.play(self.clocks[cname], 0)
+            r.play(self.clocks[cname], quant)
 
     def send(self, name, i):
         tag = i['s']
@@ -147,7 +149,9 @@ class Runner:
                     n += 1
                     self.obs(name, n, clock)
                 elif op == 'P':
-                    self.play(i['s'], i['c'])
+                    self.play(i['s'], i['c'], i['a'], i['b'])
+                elif op == 'ST':
+                    self.routine(i['s']).stop()
                 elif op in ('S', 'M'):
                     self.send(name, i)
                 elif op == 'T':
@@ -182,7 +186,7 @@ class Runner:
     def run_main(self):
         for i in self.prog['main']:
             if i['op'] == 'P':
-                self.play(i['s'], i['c'])
+                self.play(i['s'], i['c'], i['a'], i['b'])
             elif i['op'] in ('S', 'M'):
                 self.send('main', i)
             elif i['op'] == 'U' and MODE == 'nrt':
